@@ -191,7 +191,7 @@ func RunCheck(p Property, opt Options) int {
 	for eo := range outs {
 		ev.add(eo)
 		if eo.run.Result == nil || eo.run.TimedOut || (eo.run.Result != nil && (eo.run.Result.Err != "" || eo.run.Result.Budget != "")) {
-			if !allowedDeath(p, eo) {
+			if !allowedDeath(p, eo) && len(eo.viols) == 0 {
 				inconclusive++
 				if inconclusive <= 3 {
 					msg := ""
